@@ -10,6 +10,8 @@ from sa import rules_extra as RX
 
 FRONT = ['reader', 'scanner', 'parser', 'composer']
 
+from sa import rules_r12 as R12
+
 
 def run(ctx, repo):
     ctx.explanation = (
@@ -53,6 +55,7 @@ def run(ctx, repo):
     ctx.call(R10.r_dispatch_names_closed, repo, FRONT)
     ctx.call(R10.r_directive_name_exact, repo)
 
+    ctx.call(R12.r_update_postcondition, repo)
 
 if __name__ == '__main__':
     sys.exit(report.main('C03', 'other', run))
